@@ -48,6 +48,15 @@ Theorem c04_exactly_once_fifo :
             holder (pc th) = true -> (Z.to_nat p < length (qlog s ++ dbuf th))%nat))).
 Proof. exact QueueLtsProofs.exactly_once_fifo. Qed.
 
+(* distinct write ids in the scripts => no id is applied twice (unconditional exactly-once) *)
+Theorem c04_exactly_once :
+  forall (f : bool) (n B : Z) (scripts : list (list QueueLts.op)) (s : gstate),
+         2 <= n ->
+         wf_scripts scripts ->
+         NoDup (all_script_ids scripts) ->
+         QueueLtsProofs.reachable (init_scripts f n B scripts) s -> NoDup (applied s).
+Proof. exact QueueLtsProofs.exactly_once. Qed.
+
 (* repaired code: if write a returned nil before write b was invoked, every application of b is preceded by an application of a (any mix of SetAsync / Set / Delete) *)
 Theorem c04_realtime_order :
   forall (n B : Z) (scripts : list (list QueueLts.op)) (s : gstate) (a b : Z),
@@ -187,6 +196,7 @@ Print Assumptions c04_ring_shape.
 Print Assumptions c04_no_overwrite.
 Print Assumptions c04_two_cells_needed.
 Print Assumptions c04_exactly_once_fifo.
+Print Assumptions c04_exactly_once.
 Print Assumptions c04_realtime_order.
 Print Assumptions c04_realtime_order_trace.
 Print Assumptions c04_realtime_order_old_code_refuted.
